@@ -72,8 +72,8 @@ def gen_toc(rng, max_entries):
     pages_in_content = rng.random() < 0.4
     # a generated box long enough to be split over lines and pages: counted on the page of its first fragment
     long_mark = pages_in_content and rng.random() < 0.4
-    # target-counter(…, pages) only for backward references: a forward one raises (finding target-counter-pages-forward-crash)
-    pages_ref = where == 'back' and rng.random() < 0.6
+    # target-counter(…, pages), backwards and (since da41776 repaired target-counter-pages-forward-crash) forwards
+    pages_ref = rng.random() < (0.6 if where == 'back' else 0.3)
     margin = rng.random() < 0.5
     css = (
         f'@page {{ size: 200px {lines_per_page * 10 + (20 if margin else 0)}px; margin: 0; '
@@ -184,6 +184,19 @@ def observe(document):
                 targets.setdefault(box.element.get('id'), index)
     return (list(labels.values()), targets, [(i, t.strip().split('|')[0]) for i, t in marks.values()],
             len(document.pages))
+
+
+def observe_pages_refs(document):
+    """[(href, text)] of the `a::before` boxes printing `target-counter(attr(href), pages) " "`."""
+    from weasyprint.formatting_structure import boxes
+    refs = {}
+    for page in document.pages:
+        for box in page._page_box.descendants():
+            if isinstance(box, boxes.TextBox) and (box.element_tag or '') == 'a::before':
+                key = id(box.element)
+                old = refs.get(key, (box.element.get('href'), ''))
+                refs[key] = (old[0], old[1] + box.text)
+    return list(refs.values())
 
 
 def converged(passes, max_loops=8):
